@@ -122,6 +122,7 @@ def run(ck: Check):
     dex, cm = _real()
     # tie by translation: regenerate AgVerif.Gen.PyLeb from the five functions of the tree under test
     # (gen/py2lean.py); Props/C03.lean proves gen_*_eq: generated definition = hand model, for every input
+    ck.run_gen("py2lean_selftest")    # translator self-test: the subset, construct by construct, against CPython
     ck.run_gen("py2lean_c03")
     if ck.pins_changed(PINS):          # a modelled function changed: run the thorough sizes even in the quick tier
         ck.quick = False
